@@ -428,8 +428,11 @@ class DupInc(object):
         inc = flowlib._map_callable("inc")
         import copy
         for v in flow:
+            # the two values must not share one context dictionary, and the second is made before the first is
+            # handed on (elements further down, e.g. a Variable, change the context of what they get in place)
+            w = inc(copy.deepcopy(v))
             yield v
-            yield inc(copy.deepcopy(v))      # the two values must not share one context dictionary
+            yield w
 
 
 def build_stage2(st, fk, variant=0):
